@@ -1,6 +1,8 @@
 (* C15 — Map-level processing of hit objects: order, combos, velocity,
-   sample defaults.  Statements only; proofs in Proofs/MapLevelFacts.v and
-   Proofs/MapLevelConcrete.v.  Everything holds for ANY curve-distance
+   sample defaults, shift invariance.  Statements only; proofs in
+   Proofs/MapLevelFacts.v and Proofs/MapLevelConcrete.v (T15a-c) and in
+   Proofs/ShiftFloat.v, Proofs/ShiftControlPoints.v, Proofs/ShiftMapLevel.v,
+   Proofs/ShiftExamples.v (T15d).  Everything holds for ANY curve-distance
    function [dist_of] (the slider-curve model supplies the real one). *)
 From RM Require Import Model.MapLevel Proofs.MapLevelFacts Proofs.MapLevelConcrete.
 From RM Require Import Model.Num Proofs.ControlPointsFacts Proofs.DecimalRounding Proofs.FloatGrammar.
